@@ -5,6 +5,8 @@ Decided clauses:
   R18.1 every library function that draws randomness asks randombytes_buf for at least the public
         size of the secret it generates (sizes compared with the header constants; locals and
         globals must be filled entirely) and the random bytes are not overwritten afterwards.
+  R18.1-deleg a public generator (*_keygen / *_keypair / *_random) that fills its output by calling another generator calls one whose
+        public size constant has the same value (crypto_kdf_hkdf_sha512_KEYBYTES is 64, crypto_auth_hmacsha512_KEYBYTES is 32).
   R18.2 single source (who-may-call): entropy / time / pid externals and the RDRAND intrinsic are
         called only inside randombytes/; the randombytes implementation slots are called only from
         randombytes.c.
@@ -108,6 +110,30 @@ def run(ctx, chk):
                        detail=why or "%s bytes into %s" % (T.show(size, f), T.show(dest, f)), path=None if ok else p,
                        key="R18.1 %s coverage" % f.sname)
     chk.floor("R18.1", "randombytes_buf call sites outside randombytes/", n, 40)
+    # ---- R18.1-deleg a generator that delegates hands its output to a generator of the same public size ---------------------------
+    nd = 0
+    gen_names = {g.sname for g in gens}
+    for f in sorted(prog.functions(), key=lambda f: f.name):
+        if not f.public or f in gens or f.unit.startswith("randombytes/"):
+            continue
+        mine = macro_for(prog, f.sname)
+        if not mine or not any(f.sname.endswith(sf) for sf in ("_keygen", "_keypair", "_scalar_random", "_random")):
+            continue
+        for p in cm.paths(prog, f):
+            for e in p.calls():
+                if e.callee[0] != "fn" or not e.args or e.args[0] != ("arg", 0):
+                    continue
+                g = e.callee[1]
+                theirs = macro_for(prog, g.sname)
+                if not theirs or not any(g.sname.endswith(sf) for sf in ("_keygen", "_keypair", "_scalar_random", "_random")):
+                    continue
+                nd += 1
+                ok = bool(set(mine.values()) & set(theirs.values()))
+                chk.ob("R18.1-deleg", f, "a delegating generator hands its output to a generator of the same public size", ok, loc=f.loc(e.iid),
+                       path=None if ok else p, detail="" if ok else "%s (%s) is filled by %s (%s): the remaining bytes keep the caller's old "
+                       "buffer content" % (f.sname, mine, g.sname, theirs), key="R18.1-deleg %s" % f.sname)
+            break
+    chk.floor("R18.1-deleg", "delegating generator functions", nd, 3)
     # ---- R18.6 every dispatch reads the installed source at call time ---------------------------------------------------------
     n6 = 0
     for f in sorted(prog.functions(), key=lambda f: f.name):
